@@ -88,6 +88,11 @@ class Ctx:
             self.findings.append(Finding(rule, func, construct, message, detail, where))
         return ok
 
+    def findings_unknown(self):
+        """Findings that are not listed as known (i.e. would be reported as violations)."""
+        known = Known()
+        return [f for f in self.findings if known.match(self.prop, f) is None]
+
     def note(self, text):
         self.notes.append(text)
 
